@@ -1,8 +1,232 @@
-From Coq Require Import List ZArith Bool.
-Require Import FV.Gen.C04 FV.C04.Model.
+(* C04 — No invalid, forbidden or out-of-limit request ever reaches the driver.  Property theorems only; each is closed
+   by a lemma of Lemmas.v / LemmasHist.v.
+
+   Quantification: md over ALL module descriptions (any accessibles, datatypes, flags, check chains), c over all caches
+   (= all prior histories, in particular all positions of the dynamic limits), rq over all requests (any payload, any
+   scripted driver behaviour: returns None / Done / any read-back value / raises), E over all int()/b64decode tables,
+   hook over ALL user check_<p> functions of (value, module state).
+
+   Full property and what is proved:
+   (safe)     driver called  =>  names exist and are exported, parameter writable, payload valid (wire = import + validate
+              with the cached value, then the wrapper's own validate), whole check chain passed, exactly one call with
+              exactly that value                                            -- C04_change_safe, C04_do_safe (unconditional;
+              Command.do passes the validated argument since fix 1c127f9: no exception left)
+   (checks)   "check chain passed" means: every check_<p> of the MRO up to the first hook that returns True holds, and the
+              generated limit check enforces every existing <p>_min/_max/_limits   -- C04_checks_respected,
+              C04_limits_respected_except_both_kinds (guard: not <p>_limits together with <p>_min/_max, refuted otherwise:
+              C04_refuted_limits_shadow = finding C18/limits-tuple-shadows-min-max)
+   (refused)  otherwise error report chosen by the first failing test, cache and subscribers untouched, driver not called
+              -- C04_change_refused, C04_do_refused_except_missing_colon (a do specifier without ':' is answered
+              InternalError: C04_refuted_do_specifier_without_colon), C04_refusal_class,
+              C04_error_clean_except_unexportable (a value whose nested struct lacks an optional member is stored and
+              then fails to export: C04_refuted_stored_then_error), C04_error_clean_exportable, C04_success_announced
+   (history)  lifted over every request sequence from every cache whose values lie in their value sets
+              -- C04_history_invariant, C04_history_write_values, C04_history_call_values *)
+From Coq Require Import ZArith NArith Bool List.
+Import ListNotations.
+Require Import FV.Gen.C04 FV.Base.F64 FV.Base.PyVal FV.C01.Model FV.C01.Lemmas.
+Require Import FV.C04.Model FV.C04.Lemmas FV.C04.LemmasHist FV.C04.Refuted.
+
+(* obligations on the facts regenerated from /repo (Gen/C04.v): the order of the tests in _setParameterValue /
+   _execute_command / Command.do / the write wrapper / checkLimits, the export map, the error mapping of handle() *)
 Theorem C04_source_facts :
   set_parameter_order = true /\ execute_command_order = true /\ handle_change_shape = true /\ handle_do_shape = true /\
   command_do_shape = true /\ write_wrapper_shape = true /\ check_funcs_from_mro = true /\ check_limits_shape = true /\
   export_map_shape = true /\ announce_store_then_emit = true /\ handler_error_mapping = true /\ error_class_names = true.
 Proof. repeat split; reflexivity. Qed.
+
+(* a change request that reaches the driver (or succeeds without write method) passed every test, and the driver is
+   called exactly once with exactly the validated value *)
+Theorem C04_change_safe : forall E hook md c rq,
+  let o := handle_change E hook md c rq in
+  o_drv o <> [] \/ o_reply o = None ->
+  exists p v w,
+    rq_mod rq = md_name md /\ md_export md = true /\ In (AParam p) (md_acc md) /\ p_export p = Some (ename rq) /\
+    p_readonly p = false /\ p_constant p = false /\
+    wire E (p_dt p) (rq_data rq) (prev_of c p) = Ok v /\
+    dt_validate (p_dt p) v PNone = Ok w /\
+    checks_pass hook p v c /\
+    o_drv o = (if p_haswrite p then [Write (p_name p) w] else []).
+Proof. intros E hook md c rq. exact (change_safe E hook md c rq). Qed.
+
+(* what a passed check chain guarantees: all checks before the first hook that returns True hold; if no hook returns
+   True, all hooks of the MRO returned without exception and the generated limit check (if present) succeeded *)
+Theorem C04_checks_respected : forall hook p v c,
+  checks_pass hook p v c ->
+  (exists pre post, p_checks p = pre ++ post /\ Forall (check_holds hook (p_name p) v c) pre /\
+                    (post = [] \/ exists i r, post = CkUser i :: r /\ hook i v c = HStop)) /\
+  ((forall i, In (CkUser i) (p_checks p) -> hook i v c <> HStop) ->
+   Forall (check_holds hook (p_name p) v c) (p_checks p)).
+Proof.
+  intros hook p v c H. split; [apply run_checks_prefix, H|apply run_checks_all, H].
+Qed.
+
+(* the generated limit check enforces every existing limit parameter (full statement: for all layouts; proved for all
+   layouts that do not combine <p>_limits with <p>_min/<p>_max) *)
+Theorem C04_limits_respected_except_both_kinds : forall pn v c,
+  limits_well_shaped pn c -> check_limits pn v c = Ok tt -> limits_respected pn v c.
+Proof. exact check_limits_respected. Qed.
+
+Theorem C04_limits_respected_int : forall pn z c, limits_respected pn (PInt z) c ->
+  (forall l h, getp c (pn ++ s_limits) = Some (PTuple [PInt l; PInt h]) -> (l <= z <= h)%Z) /\
+  (forall l, getp c (pn ++ s_min) = Some (PInt l) -> (l <= z)%Z) /\
+  (forall h, getp c (pn ++ s_max) = Some (PInt h) -> (z <= h)%Z).
+Proof. exact limits_respected_int. Qed.
+
+(* a failing check chain was stopped by a check that does not hold *)
+Theorem C04_check_refusal_justified : forall hook cks pn v c e,
+  snd (run_checks hook cks pn v c) = Some e -> exists k, In k cks /\ ~ check_holds hook pn v c k.
+Proof. exact run_checks_err. Qed.
+
+(* refusal: the first failing test chooses the report; fail c e [] hl = error reply of class (report e), no driver call,
+   no update, cache unchanged *)
+Theorem C04_change_refused : forall E hook md c rq,
+  let o := handle_change E hook md c rq in
+  (rq_mod rq <> md_name md -> o = fail c (ESecop NoSuchModule) [] []) /\
+  (rq_mod rq = md_name md -> (forall p, lookup_export md (ename rq) <> Some (AParam p)) ->
+     o = fail c (ESecop NoSuchParameter) [] []) /\
+  (forall p, rq_mod rq = md_name md -> lookup_export md (ename rq) = Some (AParam p) ->
+     (p_constant p || p_readonly p = true -> o = fail c (ESecop ReadOnly) [] []) /\
+     (p_constant p || p_readonly p = false ->
+        (forall e, wire E (p_dt p) (rq_data rq) (prev_of c p) = Err e -> o = fail c (of_exc e) [] []) /\
+        (forall v, wire E (p_dt p) (rq_data rq) (prev_of c p) = Ok v ->
+           (forall e, dt_validate (p_dt p) v PNone = Err e -> o = fail c (of_exc e) [] []) /\
+           (forall nv hl e, dt_validate (p_dt p) v PNone = Ok nv ->
+              run_checks hook (p_checks p) (p_name p) v c = (hl, Some e) -> o = fail c e [] hl)))).
+Proof. intros E hook md c rq. exact (change_refused E hook md c rq). Qed.
+
+Theorem C04_fail_shape : forall c e hl,
+  o_reply (fail c e [] hl) = Some (report e) /\ untouched c (fail c e [] hl).
+Proof. intros. split; [reflexivity|apply fail_untouched]. Qed.
+
+(* an accessible without wire name (export = False, or unexported module) is never found *)
+Theorem C04_only_exported_found : forall md e a,
+  lookup_export md e = Some a -> md_export md = true /\ In a (md_acc md) /\ acc_export a = Some e.
+Proof. exact lookup_export_in. Qed.
+
+(* a payload refused by the datatype is answered WrongType or RangeError (guard = C01 totality guard) *)
+Theorem C04_refusal_class : forall E d j prev e,
+  wire_guard E d j prev = true -> wire E d j prev = Err e ->
+  report (of_exc e) = WrongType \/ report (of_exc e) = RangeError.
+Proof. exact wire_refusal_class. Qed.
+
+(* full statement: any error reply (also one caused by the driver or by its read-back value) leaves cache and subscribers
+   alone.  Proved with the exact exception of finding nested-optional-struct-stored-then-error: the value was stored and
+   cannot be exported (C04_refuted_stored_then_error); and unconditionally for modules whose values always export *)
+Theorem C04_error_clean_except_unexportable : forall E hook md c rq,
+  o_reply (handle E hook md c rq) <> None ->
+  (o_upd (handle E hook md c rq) = [] /\ o_cache (handle E hook md c rq) = c) \/
+  (rq_act rq = AChange /\ exists p, lookup_export md (ename rq) = Some (AParam p) /\
+     stored_unexportable p c (handle E hook md c rq)).
+Proof. intros E hook md c rq. exact (error_clean_except_unexportable E hook md c rq). Qed.
+
+Theorem C04_error_clean_exportable : forall E hook md c rq,
+  (forall p x, In (AParam p) (md_acc md) -> exportable (p_dt p) x = true) ->
+  o_reply (handle E hook md c rq) <> None ->
+  o_upd (handle E hook md c rq) = [] /\ o_cache (handle E hook md c rq) = c.
+Proof. intros E hook md c rq. exact (error_clean E hook md c rq). Qed.
+
+(* a success reply: nothing changed (driver said Done) or exactly one value stored, announced once, and exportable *)
+Theorem C04_success_announced : forall hook p v c d,
+  o_reply (write_wrapper hook p v c d) = None ->
+  (o_upd (write_wrapper hook p v c d) = [] /\ o_cache (write_wrapper hook p v c d) = c) \/
+  (exists x, o_cache (write_wrapper hook p v c d) = setp c (p_name p) x /\
+             o_upd (write_wrapper hook p v c d) = match p_export p with Some _ => [(p_name p, x)] | None => [] end /\
+             (p_export p <> None -> exportable (p_dt p) x = true)).
+Proof. intros hook p v c d. exact (write_wrapper_success hook p v c d). Qed.
+
+(* commands: the function is called only for an existing exported command with a present, importable and valid argument
+   (or no argument where none is declared), exactly once, with exactly the validated argument *)
+Theorem C04_do_safe : forall E md c rq,
+  let o := handle_do E md c rq in
+  o_drv o <> [] \/ o_reply o = None ->
+  exists en cm w,
+    rq_acc rq = Some en /\ rq_mod rq = md_name md /\ md_export md = true /\ In (ACmd cm) (md_acc md) /\
+    c_export cm = Some en /\ arg_ok E cm (rq_data rq) w /\ o_drv o = [Call (c_name cm) w].
+Proof. intros E md c rq. exact (do_safe E md c rq). Qed.
+
+(* full statement: every refused do request gets NoSuchModule / NoSuchCommand / WrongType / RangeError; proved with the
+   exception of specifiers without ':' (first conjunct: they get InternalError, see Refuted.v) *)
+Theorem C04_do_refused_except_missing_colon : forall E md c rq,
+  let o := handle_do E md c rq in
+  (rq_acc rq = None -> o = fail c EPy [] []) /\
+  (forall en, rq_acc rq = Some en ->
+     (rq_mod rq <> md_name md -> o = fail c (ESecop NoSuchModule) [] []) /\
+     (rq_mod rq = md_name md -> (forall cm, lookup_export md en <> Some (ACmd cm)) ->
+        o = fail c (ESecop NoSuchCommand) [] []) /\
+     (forall cm, rq_mod rq = md_name md -> lookup_export md en = Some (ACmd cm) ->
+        (forall w, ~ arg_ok E cm (rq_data rq) w) ->
+        untouched c o /\ exists cl, o_reply o = Some cl /\
+          (arg_guard E cm (rq_data rq) = true -> cl = WrongType \/ cl = RangeError))).
+Proof. intros E md c rq. exact (do_refused E md c rq). Qed.
+
+Theorem C04_do_clean : forall E md c rq, o_upd (handle_do E md c rq) = [] /\ o_cache (handle_do E md c rq) = c.
+Proof. intros E md c rq. exact (do_clean E md c rq). Qed.
+
+(* histories: from any cache whose values lie in their value sets, after any request sequence (any drivers, any hooks)
+   the cache still does; every write_<p> call of the whole history is for an exported, writable parameter and carries a
+   value of its value set; every command call carries a value of the argument's value set *)
+Theorem C04_history_invariant : forall E hook md, wf_md md -> names_unique md ->
+  forall rqs c, cache_ok md c -> cache_ok md (final E hook md c rqs).
+Proof. intros E hook md. exact (final_ok E hook md). Qed.
+
+Theorem C04_history_write_values : forall E hook md, wf_md md -> names_unique md -> forall rqs c, cache_ok md c ->
+  forall o pn w, In o (run E hook md c rqs) -> In (Write pn w) (o_drv o) ->
+  exists p, In (AParam p) (md_acc md) /\ p_name p = pn /\ p_export p <> None /\ md_export md = true /\
+            p_readonly p = false /\ p_constant p = false /\ p_haswrite p = true /\
+            in_setb (p_dt p) w = true /\ o_drv o = [Write pn w].
+Proof. intros E hook md. exact (history_write_values E hook md). Qed.
+
+Theorem C04_history_call_values : forall E hook md, wf_md md -> names_unique md -> forall rqs c, cache_ok md c ->
+  forall o cn w, In o (run E hook md c rqs) -> In (Call cn w) (o_drv o) ->
+  exists cm, In (ACmd cm) (md_acc md) /\ c_name cm = cn /\ c_export cm <> None /\ md_export md = true /\
+             o_drv o = [Call cn w] /\
+             match c_arg cm with Some ad => in_setb ad w = true | None => w = PTuple [] end.
+Proof. intros E hook md. exact (history_call_values E hook md). Qed.
+
+(* non-vacuity: a module with a : int 0..10 (write method, generated limit check) and a_max; the limit is moved to 4,
+   then 5 is refused with RangeError without touching anything, 4 reaches the driver exactly once *)
+Definition s_amax : str := s_a ++ s_max.
+Definition demo_md : mdesc :=
+  {| md_name := s_m; md_export := true;
+     md_acc := [AParam (p_a [CkAuto]);
+                AParam {| p_name := s_amax; p_export := Some (95%N :: s_amax); p_dt := TInt 0 10; p_readonly := false;
+                          p_constant := false; p_haswrite := false; p_checks := [] |}] |}.
+Definition chg (acc : str) (z : Z) : request :=
+  {| rq_act := AChange; rq_mod := s_m; rq_acc := Some acc; rq_data := PInt z; rq_drv := DNone |}.
+Example C04_demo :
+  map (fun o => (o_reply o, o_drv o, o_upd o))
+      (run E0 no_hooks demo_md [(s_a, PInt 1); (s_amax, PInt 10)] [chg (95%N :: s_amax) 4; chg s__a 5; chg s__a 4]) =
+  [(None, [], [(s_amax, PInt 4)]); (Some RangeError, [], []); (None, [Write s_a (PInt 4)], [(s_a, PInt 4)])].
+Proof. vm_compute. reflexivity. Qed.
+Example C04_demo_wf : wf_md demo_md /\ names_unique demo_md /\ cache_ok demo_md [(s_a, PInt 1); (s_amax, PInt 10)].
+Proof.
+  split; [split|split].
+  - intros p [H|[H|[]]]; injection H as <-; vm_compute; exact I.
+  - intros cm ad [H|[H|[]]]; discriminate.
+  - intros p q [H|[H|[]]] [G|[G|[]]]; injection H as <-; injection G as <-; intros N; try reflexivity; vm_compute in N; discriminate.
+  - intros p [H|[H|[]]]; injection H as <-; eexists; split; vm_compute; reflexivity.
+Qed.
+
 Print Assumptions C04_source_facts.
+Print Assumptions C04_change_safe.
+Print Assumptions C04_checks_respected.
+Print Assumptions C04_limits_respected_except_both_kinds.
+Print Assumptions C04_limits_respected_int.
+Print Assumptions C04_check_refusal_justified.
+Print Assumptions C04_change_refused.
+Print Assumptions C04_fail_shape.
+Print Assumptions C04_only_exported_found.
+Print Assumptions C04_refusal_class.
+Print Assumptions C04_error_clean_except_unexportable.
+Print Assumptions C04_error_clean_exportable.
+Print Assumptions C04_success_announced.
+Print Assumptions C04_do_safe.
+Print Assumptions C04_do_refused_except_missing_colon.
+Print Assumptions C04_do_clean.
+Print Assumptions C04_history_invariant.
+Print Assumptions C04_history_write_values.
+Print Assumptions C04_history_call_values.
+Print Assumptions C04_refuted_do_specifier_without_colon.
+Print Assumptions C04_refuted_limits_shadow.
+Print Assumptions C04_refuted_stored_then_error.
